@@ -324,7 +324,30 @@ func (pm *ProtocolManager) rcvBlockLoop() {
 func (pm *ProtocolManager) insertBlock(b *types.Block) error {
 	// pop the confirms which arrived before block
 	pm.mergeConfirmsFromCache(b)
-	return pm.chain.InsertBlock(b)
+	err := pm.chain.InsertBlock(b)
+	if err != nil && len(b.Confirms) > 0 && pm.chain.HasBlock(b.Hash()) {
+		// the chain has the block already and ignored this copy of it. The confirms which were merged into the copy are handed over on their own
+		pm.chain.InsertConfirms(b.Height(), b.Hash(), b.Confirms)
+	}
+	// a confirm which was handled while the block was on its way into the chain did not find it there and was cached after the pop above
+	pm.flushLateConfirms(b.Height(), b.Hash())
+	return err
+}
+
+// flushLateConfirms hands the cached confirms of a block which is in the chain over to the chain. Nobody pops the cache for a block after it has been inserted
+func (pm *ProtocolManager) flushLateConfirms(height uint32, hash common.Hash) {
+	if !pm.chain.HasBlock(hash) {
+		return
+	}
+	confirms := pm.confirmsCache.Pop(height, hash)
+	if len(confirms) == 0 {
+		return
+	}
+	sigList := make([]types.SignData, 0, len(confirms))
+	for _, confirm := range confirms {
+		sigList = append(sigList, confirm.SignInfo)
+	}
+	pm.chain.InsertConfirms(height, hash, sigList)
 }
 
 // stableBlockLoop block has been stable
@@ -936,6 +959,10 @@ func (pm *ProtocolManager) handleConfirmMsg(msg *p2p.Msg) error {
 		go pm.chain.InsertConfirms(confirm.Height, confirm.Hash, []types.SignData{confirm.SignInfo})
 	} else {
 		pm.confirmsCache.Push(confirm)
+		// the block may have been inserted since the check above
+		if pm.chain.HasBlock(confirm.Hash) {
+			go pm.flushLateConfirms(confirm.Height, confirm.Hash)
+		}
 		if pm.confirmsCache.Size() > 100 {
 			log.Debugf("confirmsCache's size: %d", pm.confirmsCache.Size())
 		}
